@@ -6,6 +6,7 @@
 #include <fcntl.h>
 #include <sys/stat.h>
 #include <dirent.h>
+#include <errno.h>
 
 struct Op
 {
@@ -216,6 +217,7 @@ static Verdict run_c15(const Case &c)
     mkdir(dir.c_str(), 0755);
     std::vector<StepRes> res;
     Ser s;
+    errno = 0; // a fresh process starts with errno 0; whatever the steps leave behind is part of the history
     for (int i = 0; i < n; i++)
     {
       bytes in = step_input(ops[i], res);
@@ -251,6 +253,7 @@ static Verdict run_c15(const Case &c)
         mkdir(dir.c_str(), 0755);
         std::vector<StepRes> rr;
         Ser s;
+        errno = 0;
         for (int i = 0; i < k; i++)
         {
           bytes in = step_input(ops[i], rr);
@@ -302,6 +305,7 @@ static Verdict run_c15(const Case &c)
       quiet();
       std::string dir = base + "-B";
       mkdir(dir.c_str(), 0755);
+      errno = 0;
       StepRes r = run_step(ops[k - 1], in, key, dir, k - 1);
       rm_rf15(dir);
       Ser s;
@@ -334,6 +338,7 @@ static Verdict run_c15(const Case &c)
       quiet();
       std::string dir = base + "-B";
       mkdir(dir.c_str(), 0755);
+      errno = 0; // the ambient state of a fresh process
       StepRes r = run_step(ops[i], inputs[i], key, dir, i);
       rm_rf15(dir);
       Ser s;
